@@ -315,5 +315,104 @@ theorem relaxAll_incident_treeInv {I : Inst α} (hI : WF I) {source : Nat} {hasT
   relaxAll_treeInv hI _ s s'
     (fun e he => by rw [hI.incident_term _ _ he]; exact he) hinv h
 
+/-! ### The loop keeps the invariant -/
+
+theorem popOk_mem {q : List (Nat × α)} {v : Nat} (h : popOk q v = true) : ∃ p ∈ q, p.1 = v := by
+  unfold popOk at h
+  split at h
+  · cases h
+  · rename_i v' f hf
+    have h1 := List.mem_of_find?_eq_some hf
+    have h2 := List.find?_some hf
+    exact ⟨_, h1, by simpa using h2⟩
+
+/-- `runLoop` keeps the invariant for every schedule; and when there is a target, the final state
+(reached by popping the target) has a tree entry for it -/
+theorem runLoop_treeInv {I : Inst α} (hI : WF I) {source : Nat} {target : Option Nat} :
+    ∀ (sched : List Nat) (s s' : SState α), TreeInv I source s →
+      runLoop I source target sched s = .ok s' →
+      TreeInv I source s' ∧ (∀ t, target = some t → t = source ∨ (s'.sol t).isSome) := by
+  intro sched
+  induction sched with
+  | nil =>
+    intro s s' hinv h
+    unfold runLoop at h
+    split at h
+    · cases h
+    · split at h
+      · split at h
+        · cases h
+        · cases h; exact ⟨hinv, fun t ht => by cases ht⟩
+      · cases h
+  | cons v rest ih =>
+    intro s s' hinv h
+    unfold runLoop at h
+    split at h
+    · cases h
+    · split at h
+      · split at h
+        · cases h
+        · cases h; exact ⟨hinv, fun t ht => by cases ht⟩
+      · simp only at h
+        split at h
+        · cases h
+        · rename_i hpop
+          split at h
+          · rename_i htgt
+            cases h
+            refine ⟨hinv.pop v, ?_⟩
+            intro t ht
+            have htv : t = v := by
+              rw [ht] at htgt
+              simpa using htgt
+            subst htv
+            have hpop' : popOk s.queue t = true := by simpa using hpop
+            obtain ⟨p, hp, hpt⟩ := popOk_mem hpop'
+            rw [← hpt]
+            exact hinv.queue_entry p hp
+          · split at h
+            · cases h
+            · rename_i lastEdge st hcur
+              split at h
+              · cases h
+              · rename_i s2 hrel
+                have h2 : TreeInv I source s2 :=
+                  relaxAll_incident_treeInv hI v (hinv.pop v) hrel
+                exact ih _ s' h2.bump h
+
+/-- every `.ok` result of `run_a_star` is the empty result of the `target = source` shortcut or
+satisfies the invariant (and then a target has a tree entry) -/
+theorem runAStar_treeInv' {I : Inst α} (hI : WF I) (source : Nat) (target : Option Nat)
+    (sched : List Nat) (s : SState α) (h : runAStar I source target sched = .ok s) :
+    (target = some source ∧ s.queue = [] ∧ s.g = (fun _ => none) ∧ s.sol = (fun _ => none) ∧
+        s.solSize = 0 ∧ s.iters = 0) ∨
+    (target ≠ some source ∧ TreeInv I source s ∧
+      ∀ t, target = some t → (s.sol t).isSome) := by
+  unfold runAStar at h
+  split at h
+  · rename_i ht
+    cases h
+    exact Or.inl ⟨by simpa using ht, rfl, rfl, rfl, rfl, rfl⟩
+  · rename_i ht
+    have hts : target ≠ some source := by simpa using ht
+    split at h
+    · cases h
+    · rename_i f0 hf0
+      obtain ⟨h1, h2⟩ := runLoop_treeInv hI sched _ s (initState_treeInv I source f0) h
+      refine Or.inr ⟨hts, h1, ?_⟩
+      intro t htt
+      rcases h2 t htt with h3 | h3
+      · exact absurd (by rw [htt, h3]) hts
+      · exact h3
+
+theorem runAStar_treeInv {I : Inst α} (hI : WF I) (source : Nat) (target : Option Nat)
+    (sched : List Nat) (s : SState α) (h : runAStar I source target sched = .ok s) :
+    (target = some source ∧ s.queue = [] ∧ s.g = (fun _ => none) ∧ s.sol = (fun _ => none) ∧
+        s.solSize = 0 ∧ s.iters = 0) ∨
+    TreeInv I source s := by
+  rcases runAStar_treeInv' hI source target sched s h with h | h
+  · exact Or.inl h
+  · exact Or.inr h.2.1
+
 end SearchTree
 end Compass
